@@ -238,8 +238,8 @@ def extraction_selftest(timeout=600):
     return ok, len(cases), detail
 
 
-ALLOWED_AXIOMS = ["Coq.Logic.FunctionalExtensionality.functional_extensionality_dep", "Coq.Reals.ClassicalDedekindReals.sig_not_dec",
-                  "Coq.Reals.ClassicalDedekindReals.sig_forall_dec", "Coq.Logic.Classical_Prop.classic"]
+COQCHK_ALLOWED_AXIOMS = ["Coq.Logic.FunctionalExtensionality.functional_extensionality_dep", "Coq.Reals.ClassicalDedekindReals.sig_not_dec",
+                         "Coq.Reals.ClassicalDedekindReals.sig_forall_dec", "Coq.Logic.Classical_Prop.classic"]
 
 
 def coqchk_once(timeout=3600):
@@ -279,7 +279,7 @@ def coqchk_once(timeout=3600):
         clean = all(("* " + k) in out and "<none>" in out.split("* " + k)[1].split("*")[0]
                     for k in ("Constants/Inductives relying on type-in-type:", "Constants/Inductives relying on unsafe (co)fixpoints:",
                               "Inductives whose positivity is assumed:")) if rc == 0 else False
-        info = {"ok": rc == 0 and clean and all(a in ALLOWED_AXIOMS for a in axioms), "exit": rc, "axioms": axioms, "modules": len(mods),
+        info = {"ok": rc == 0 and clean and all(a in COQCHK_ALLOWED_AXIOMS for a in axioms), "exit": rc, "axioms": axioms, "modules": len(mods),
                 "seconds": round(time.time() - t0, 1), "sources_key": key, "detail": "" if rc == 0 else out[-1500:]}
         if rc != -1:
             json.dump(info, open(stamp, "w"))
